@@ -750,3 +750,32 @@ Proof.
 Qed.
 
 End GlobalExec.
+
+(* ------------------------------------------------------------------------------------------------ *)
+(* The fast checker (well-formedness of each distinct analyzer graph evaluated once) accepts only what *)
+(* the checker accepts                                                                              *)
+
+Lemma grun_nowf_eq : forall Rp Ra strict GG cap tr (s : gstate Rp Ra),
+  (forall p, In p (inits Rp Ra tr) -> wf_dagb (ginnerd GG p) = true) ->
+  grun_nowf Rp Ra strict GG cap s tr = grun Rp Ra strict GG cap s tr.
+Proof.
+  induction tr as [| l r IH]; intros s H. reflexivity.
+  simpl. assert (E : gstep_nowf Rp Ra strict GG cap s l = gstep strict GG cap s l).
+  { destruct l as [e | p | p e]; simpl; auto.
+    rewrite (H p) by (simpl; left; reflexivity). rewrite andb_true_r. reflexivity. }
+  rewrite E. destruct (gstep strict GG cap s l); auto. apply IH.
+  intros p Hp. apply H. destruct l; simpl; auto.
+Qed.
+
+Theorem valid_trace_fast_sound : forall Rp Ra top tabs assign cap (tr : list (glabel Rp Ra)),
+  valid_trace_fast Rp Ra top tabs assign cap tr = true ->
+  valid_trace Rp Ra (gdag_of_shared top tabs assign) cap tr = true.
+Proof.
+  intros Rp Ra top tabs assign cap tr H. unfold valid_trace_fast in H. unfold valid_trace.
+  apply andb_true_iff in H. destruct H as [H H5]. apply andb_true_iff in H. destruct H as [H H4].
+  apply andb_true_iff in H. destruct H as [H H3]. apply andb_true_iff in H. destruct H as [H1 H2].
+  rewrite H1, H2. simpl.
+  rewrite <- grun_nowf_eq. exact H5.
+  intros p Hp. rewrite forallb_forall in H4. specialize (H4 p Hp). apply Nat.ltb_lt in H4.
+  rewrite forallb_forall in H3. simpl. apply H3. apply nth_In. assumption.
+Qed.
